@@ -119,6 +119,9 @@ def probes(backend: str) -> List[Tuple[str, str]]:
          ("constants_a", f"Select(SelectMany(ds, lambda e: e.{coll}('A')), lambda j: (j.pt() * NEGZERO, j.pt() + 1.0, 2, True, 0))"),
          ("constants_b", f"Select(SelectMany(ds, lambda e: e.{coll}('A')), lambda j: (j.pt() * 0.0, j.pt() + 1, 2.0, False, 1, 0.0))"),
          ("declared_inline", f"Select(MetaData(ds, {{'metadata_type': 'add_method_type_info', 'type_string': '{cls}', 'method_name': 'nTrk', 'return_type': 'int'}}), lambda e: e.{coll}('A').Select(lambda j: j.nTrk()))"),
+         # the same enum name declared with OTHER content than an earlier query used
+         ("declared_enum_other_content", f"Select(MetaData(ds, {{'metadata_type': 'define_enum', 'namespace': 'xAOD.Jet', 'name': 'Color', 'values': ['Red', 'Blue', 'Green']}}), lambda e: e.{coll}('A').Where(lambda j: j.color() == xAOD.Jet.Color.Green).Count())"),
+         ("declared_other_enum_same_namespace", f"Select(MetaData(ds, {{'metadata_type': 'define_enum', 'namespace': 'xAOD.Jet', 'name': 'Quality', 'values': ['Loose', 'Tight']}}), lambda e: e.{coll}('A').Where(lambda j: j.color() == xAOD.Jet.Color.Red).Count())"),
          ("docker_md_unknown", f"Select(MetaData(ds, {{'metadata_type': 'docker', 'image': 'x:y'}}), lambda e: e.{coll}('A').Count())"),
          ("job_script_self", "Select(MetaData(ds, {'metadata_type': 'add_job_script', 'name': 'js2', 'script': [\"print('js2')\"], 'depends_on': ['js1']}), lambda e: e.%s('A').Count())" % coll)]
     return P
@@ -134,6 +137,9 @@ def gen_history(R: random.Random, maxlen: int, inject: bool) -> List[Dict[str, A
         md = [m for k in kinds for m in pool[k]]
         R.shuffle(md)
         q = R.choice(history_queries(backend))
+        if "xAOD.Jet.Color" in q and R.random() < 0.7 and "enum" not in kinds:
+            kinds = kinds + ["enum"]   # a query that really USES an enum value (declaring one is not the same as resolving it)
+            md = md + pool["enum"]
         outcome = R.choice(["ok", "ok", "ok", "bad_md_last", "unsupported", "no_outdir"] + (["inject_exc"] if inject else []))
         if outcome == "bad_md_last":
             md = md + [R.choice(BAD_MD)]  # outermost MetaData is processed first: put the bad one innermost so earlier ones are registered
